@@ -101,10 +101,11 @@ def sections_gir(rng, mask, k, dep=False):
             else:
                 L.append('<field name="f%d" writable="1"><type name="%s" c:type="%s"/></field>' % (i, rng.choice(['gint', 'gint8', 'gdouble', 'gpointer']), 'gint'))
     if mask & 8:
-        off = rng.randrange(5)
+        off = rng.randrange(6)
         for i in range(k):
             # every flag combination, with accessor links when the object has methods to link to
-            fl = [' writable="1"', ' writable="1" construct="1"', ' writable="1" construct-only="1"', ' readable="0" writable="1"', ''][(i + off) % 5]
+            fl = [' writable="1"', ' writable="1" construct="1"', ' writable="1" construct-only="1"', ' readable="0" writable="1"', '',
+                  ' writable="1" construct="1" construct-only="1"'][(i + off) % 6]
             acc = ' setter="m0" getter="m%d"' % (k - 1) if mask & 16 else ''
             L.append('<property name="p%d"%s%s transfer-ownership="none"><type name="gint" c:type="gint"/></property>' % (i, fl, acc))
     if mask & 16:
